@@ -390,6 +390,72 @@ impl Exec {
                 let inst = self.gen(op, "g");
                 inst.jitter().expect("jitter op on non-jitter").stir();
             }
+            "collide" => {
+                // Search for two different inputs of a pool map with the same image (C15, used only when the
+                // map turned out not to be affine so that rank arguments do not apply).  What is found is a
+                // concrete pair; it is confirmed separately by replaying the two inputs.
+                let which = op["map"].as_str().unwrap().to_string();
+                let budget = op.get("budget").and_then(|v| v.as_u64()).unwrap_or(1 << 16);
+                let inst = self.gen(op, "g");
+                let j = inst.jitter().expect("jitter op on non-jitter");
+                let mut f = |x: u64, j: &mut dyn JitterOps| -> u64 {
+                    j.set_pool(x);
+                    if which == "st" {
+                        j.stir();
+                    } else {
+                        let _ = j.timer_stats(false);
+                    }
+                    let _ = j.drain_reads();
+                    j.pool()
+                };
+                let mut xs: Vec<u64> = vec![0, !0];
+                for a in 0..64 {
+                    xs.push(1u64 << a);
+                    xs.push(!(1u64 << a));
+                    for b in (a + 1)..64 {
+                        xs.push((1u64 << a) | (1u64 << b));
+                    }
+                }
+                let mut r = 0x9E3779B97F4A7C15u64;
+                for _ in 0..budget {
+                    r ^= r << 13;
+                    r ^= r >> 7;
+                    r ^= r << 17;
+                    xs.push(r);
+                }
+                let mut seen: HashMap<u64, u64> = HashMap::new();
+                let mut diffs: HashMap<u64, u32> = HashMap::new();
+                let mut found: Option<(u64, u64, u64)> = None;
+                for &x in &xs {
+                    let z = f(x, j);
+                    *diffs.entry(x ^ z).or_insert(0) += 1;
+                    if let Some(&y) = seen.get(&z) {
+                        if y != x {
+                            found = Some((y, x, z));
+                            break;
+                        }
+                    }
+                    seen.insert(z, x);
+                }
+                if found.is_none() {
+                    // inverse guess for maps of the form x ^ m(x): y = z ^ c for the most frequent c = x ^ f(x)
+                    let mut top: Vec<(u64, u32)> = diffs.into_iter().collect();
+                    top.sort_by(|a, b| b.1.cmp(&a.1));
+                    'outer: for &(c, _) in top.iter().take(8) {
+                        for (&z, &x) in seen.iter().take(4096) {
+                            let y = z ^ c;
+                            if y != x && f(y, j) == z {
+                                found = Some((x, y, z));
+                                break 'outer;
+                            }
+                        }
+                    }
+                }
+                out.push(("tried".into(), json!(xs.len())));
+                if let Some((a, b, z)) = found {
+                    out.push(("collision".into(), json!([u64j(a), u64j(b), u64j(z)])));
+                }
+            }
             "jit_std_new" => {
                 // JitterRng::new() with the platform timer: only "did it panic" and
                 // the Ok/Err class are recorded; values are real entropy.
